@@ -451,9 +451,30 @@ def callback_typestate(ctx, cname, fname, keys, rid):
         k2 = ps[1] if k2 == 'id' else k2
     entry = 'self.callbacks[%s][%s]' % (k1, k2)
     n_invoke = n_fail = 0
+
+    def pop_form(fx):
+        """remove-and-get of exactly the entry, in one step:
+        callbacks[k1].pop(k2[, d]) or callbacks.get(k1, {}).pop(k2, d)
+        (setdefault in place of get is the same read but WRITES the table of
+        an unknown client).  -> (form, has_default) or None"""
+        if not (isinstance(fx, ast.Call) and
+                isinstance(fx.func, ast.Attribute) and
+                fx.func.attr == 'pop' and fx.args and U(fx.args[0]) == k2):
+            return None
+        base = fx.func.value
+        if U(base) == 'self.callbacks[%s]' % k1:
+            return 'sub', len(fx.args) > 1
+        if isinstance(base, ast.Call) and \
+                isinstance(base.func, ast.Attribute) and \
+                U(base.func.value) == 'self.callbacks' and \
+                base.func.attr in ('get', 'setdefault') and base.args and \
+                U(base.args[0]) == k1:
+            return base.func.attr, len(fx.args) > 1
+        return None
+    fail_kinds = set()
+    sub_pop = None
     for p in run.paths:
         inv = []
-        popped = 'self.callbacks[%s].pop(%s)' % (k1, k2)
         for e in p.events:
             if e.kind != 'call':
                 continue
@@ -461,11 +482,26 @@ def callback_typestate(ctx, cname, fname, keys, rid):
             if isinstance(fx, ast.Subscript) and \
                     'self.callbacks' in U(fx):
                 inv.append((e, U(fx)))
-            elif isinstance(fx, ast.Call) and U(fx) == popped:
+            elif pop_form(fx):
                 # remove-and-get in one step: the entry is gone before the
                 # callback runs
                 inv.append((e, entry))
+                if pop_form(fx)[0] == 'sub':
+                    sub_pop = e
         failed = any(e.kind == 'lookup-fails' for e in p.events)
+        if failed:
+            fail_kinds.add('lookup')
+        # remove-and-get with a default: the unknown id is the path on
+        # which the result `is None` (or is falsy)
+        for c in p.conds:
+            a = run.expand(c.atom)
+            if isinstance(a, ast.Compare) and len(a.ops) == 1 and \
+                    isinstance(a.ops[0], ast.Is) and \
+                    is_const(a.comparators[0], None) and \
+                    pop_form(a.left) and c.pol:
+                failed = True
+            elif pop_form(a) and not c.pol:
+                failed = True
         # the same decision written as a membership test: the path on which
         # `k2 in callbacks[k1]` (or `k1 in callbacks`) is false
         for c in p.conds:
@@ -477,9 +513,16 @@ def callback_typestate(ctx, cname, fname, keys, rid):
                         (U(a.left) == k1 and U(a.comparators[0]) ==
                          'self.callbacks')):
                 failed = True
+                fail_kinds.add('member')
         if failed:
             n_fail += 1
-            muts = [e for e in p.events if e.kind in ('store', 'del')]
+            muts = [e for e in p.events if e.kind in ('store', 'del')
+                    and 'self.' in U(run.expand(e.expr))]
+            # a setdefault() on the table is a write as well: it leaves an
+            # (empty) table of a client that has none
+            muts += [e for e in p.events if e.kind == 'call' and
+                     e.callee() == 'setdefault' and
+                     'self.callbacks' in U(run.expand(e.expr))]
             ctx.check(not inv and not muts and p.normal, construct,
                       'unknown id: nothing invoked, nothing written, no '
                       'error', key='unknown-id', reason='on lookup failure: '
@@ -503,8 +546,7 @@ def callback_typestate(ctx, cname, fname, keys, rid):
             dels = [d for d in p.events if d.idx < e.idx and (
                 (d.kind == 'del' and U(run.expand(d.expr)) == entry) or
                 (d.kind == 'call' and d.callee() == 'pop' and
-                 U(run.expand(d.expr)).startswith(
-                     'self.callbacks[%s].pop(%s' % (k1, k2))))]
+                 pop_form(run.expand(d.expr))))]
             if not any(d.kind == 'lookup-fails' for d in p.events):
                 pass
             whole = [d for d in p.events if d.kind == 'del' and
@@ -523,6 +565,16 @@ def callback_typestate(ctx, cname, fname, keys, rid):
                       'callback receives *data', key='cb-args',
                       reason='callback invoked as %s' % U(e.expr)[:60],
                       where=where(f, e.node), rid=rid)
+    if sub_pop is not None and not fail_kinds:
+        # callbacks[k1].pop(k2, default) answers an unknown id, but an
+        # unknown CLIENT is decided by `callbacks[k1]` itself
+        ctx.bad(construct, 'unknown-client', 'the entry is taken with '
+                'self.callbacks[%s].pop(%s, ...) and nothing tests or '
+                'catches a missing table of the client: an acknowledgement '
+                'for a client without outstanding callbacks raises KeyError '
+                '(plain dict) or leaves a fresh empty table behind '
+                '(defaultdict) instead of being ignored' % (k1, k2),
+                where(f, sub_pop.node), rid=rid)
     if not n_invoke or not n_fail:
         ctx.bad(construct, 'paths', 'no %s path found' % (
             'invoking' if not n_invoke else 'lookup-failure'), w, rid=rid)
